@@ -27,19 +27,11 @@ fn note(ctx: &Context<'_>, what: &str) {
     if let Some(l) = ctx.data_opt::<Arc<Log>>() { l.0.lock().unwrap().push(what.to_string()); }
 }
 
+/// Emits the `#[Object] impl` verbatim (so the derive sees the tokens exactly as written) and, from the same
+/// tokens, the table (type, field, rule text) that the start-up mirror check compares with schemas/limits.json.
 macro_rules! gql_object {
-    (#[$oa:meta] $ty:ident, $tname:literal, $rules:ident; $( $(rule $cx:literal)? fn $f:ident ( $($arg:ident : $aty:ty = $def:literal),* ) -> $ret:ty = $val:expr ; )* ) => {
-        #[$oa]
-        impl $ty {
-            $(
-                $(#[graphql(complexity = $cx)])?
-                async fn $f(&self, ctx: &Context<'_> $(, #[graphql(default = $def)] $arg: $aty)* ) -> $ret {
-                    $( let _ = $arg; )*
-                    note(ctx, concat!($tname, ".", stringify!($f)));
-                    $val
-                }
-            )*
-        }
+    ($rules:ident, $tname:literal; $($all:tt)*) => { $($all)* gql_object!(@table $rules, $tname; $($all)*); };
+    (@table $rules:ident, $tname:literal; # [Object] impl $ty:ident { $( $(#[graphql(complexity = $cx:literal)])? async fn $f:ident ( $($params:tt)* ) -> $ret:ty $body:block )* }) => {
         const $rules: &[(&str, &str, &str)] = &[ $( ($tname, stringify!($f), gql_object!(@cx $($cx)?)) ),* ];
     };
     (@cx) => { "" };
@@ -59,30 +51,46 @@ pub enum Node { A(A), B(B) }
 #[derive(Union, Clone)]
 pub enum U { A(A), B(B) }
 
-gql_object! { #[Object] A, "A", A_RULES;
-    fn id() -> ID = ID("a".into());
-    rule "5" fn label() -> Option<String> = Some("la".into());
-    fn peer() -> Option<Node> = Some(Node::B(B));
-    rule "2 * child_complexity" fn me() -> Option<A> = Some(A);
-    rule "first * child_complexity + 1" fn kids(first: usize = 2) -> Vec<Node> = vec![Node::A(A), Node::B(B)];
-    fn n() -> Option<i32> = Some(1);
+gql_object! { A_RULES, "A";
+#[Object]
+impl A {
+    async fn id(&self, ctx: &Context<'_>) -> ID { note(ctx, "A.id"); ID("a".into()) }
+    #[graphql(complexity = "5")]
+    async fn label(&self, ctx: &Context<'_>) -> Option<String> { note(ctx, "A.label"); Some("la".into()) }
+    async fn peer(&self, ctx: &Context<'_>) -> Option<Node> { note(ctx, "A.peer"); Some(Node::B(B)) }
+    #[graphql(complexity = "2 * child_complexity")]
+    async fn me(&self, ctx: &Context<'_>) -> Option<A> { note(ctx, "A.me"); Some(A) }
+    #[graphql(complexity = "first * child_complexity + 1")]
+    async fn kids(&self, ctx: &Context<'_>, #[graphql(default = 2)] first: usize) -> Vec<Node> { let _ = first; note(ctx, "A.kids"); vec![Node::A(A), Node::B(B)] }
+    async fn n(&self, ctx: &Context<'_>) -> Option<i32> { note(ctx, "A.n"); Some(1) }
+}
 }
 
-gql_object! { #[Object] B, "B", B_RULES;
-    fn id() -> ID = ID("b".into());
-    fn label() -> Option<String> = Some("lb".into());
-    fn peer() -> Option<Node> = Some(Node::A(A));
-    fn a() -> Option<A> = Some(A);
-    rule "0" fn b() -> Option<bool> = Some(true);
+gql_object! { B_RULES, "B";
+#[Object]
+impl B {
+    async fn id(&self, ctx: &Context<'_>) -> ID { note(ctx, "B.id"); ID("b".into()) }
+    async fn label(&self, ctx: &Context<'_>) -> Option<String> { note(ctx, "B.label"); Some("lb".into()) }
+    async fn peer(&self, ctx: &Context<'_>) -> Option<Node> { note(ctx, "B.peer"); Some(Node::A(A)) }
+    async fn a(&self, ctx: &Context<'_>) -> Option<A> { note(ctx, "B.a"); Some(A) }
+    #[graphql(complexity = "0")]
+    async fn b(&self, ctx: &Context<'_>) -> Option<bool> { note(ctx, "B.b"); Some(true) }
+}
 }
 
-gql_object! { #[Object] Query, "Query", Q_RULES;
-    fn node() -> Option<Node> = Some(Node::A(A));
-    fn a() -> Option<A> = Some(A);
-    fn u() -> Option<U> = Some(U::B(B));
-    rule "count * child_complexity + 2" fn items(count: usize = 3) -> Vec<A> = vec![A];
-    rule "3" fn n() -> Option<i32> = Some(7);
-    rule "2 * child_complexity + 1" fn heavy() -> Option<A> = Some(A);
+gql_object! { Q_RULES, "Query";
+#[Object]
+impl Query {
+    async fn node(&self, ctx: &Context<'_>) -> Option<Node> { note(ctx, "Query.node"); Some(Node::A(A)) }
+    async fn a(&self, ctx: &Context<'_>) -> Option<A> { note(ctx, "Query.a"); Some(A) }
+    async fn u(&self, ctx: &Context<'_>) -> Option<U> { note(ctx, "Query.u"); Some(U::B(B)) }
+    #[graphql(complexity = "count * child_complexity + 2")]
+    async fn items(&self, ctx: &Context<'_>, #[graphql(default = 3)] count: usize) -> Vec<A> { let _ = count; note(ctx, "Query.items"); vec![A] }
+    #[graphql(complexity = "3")]
+    async fn n(&self, ctx: &Context<'_>) -> Option<i32> { note(ctx, "Query.n"); Some(7) }
+    #[graphql(complexity = "2 * child_complexity + 1")]
+    async fn heavy(&self, ctx: &Context<'_>) -> Option<A> { note(ctx, "Query.heavy"); Some(A) }
+}
 }
 
 struct Tag;
